@@ -11,7 +11,9 @@ import (
 	"strconv"
 	"strings"
 
+	marchive "github.com/LindsayBradford/crem/internal/pkg/model/archive"
 	"github.com/LindsayBradford/crem/internal/pkg/model/planningunit"
+	"github.com/LindsayBradford/crem/internal/pkg/parameters"
 )
 
 func init() { register("catchment-walk", suiteCatchmentWalk) }
@@ -27,6 +29,16 @@ type walker struct {
 	tag string
 	// statistics
 	dsTag string
+	// model parameters other than the defaults (nil = defaults)
+	extra parameters.Map
+	count int // operations so far (long walks)
+	// quiet: the walk is not sent to the Lean model (no protocol lines); the direct clauses are evaluated all the same,
+	// and values are compared with the fresh model bit for bit (the long no-drift walks)
+	quiet bool
+	// shadows: further real models of the same dataset, each under its own (variable, limit), driven through the very
+	// same proposals as cm during the exhaustive walk.  They are judged by the direct clauses only (C10 verdict and
+	// reason text against the fresh-model oracle); their operations are not sent to the Lean model (cm's are).
+	shadows []*CM
 }
 
 func datasetLine(dsPath string) string {
@@ -75,8 +87,14 @@ func materialiseDataset(line string, dir string) string {
 	return first
 }
 
-func newWalker(c *Ctx, dsPath string, limVar int, limit float64, tag string) *walker {
-	cm, err := loadCM(dsPath, limVar, limit)
+func newWalker(c *Ctx, dsPath string, limVar int, limit float64, tag string, extras ...parameters.Map) *walker {
+	var extra parameters.Map
+	for _, e := range extras {
+		if len(e) > 0 {
+			extra = e
+		}
+	}
+	cm, err := loadCM(dsPath, limVar, limit, extra)
 	if err != nil {
 		c.Stat("dataset-rejected: " + clip(err.Error(), 60))
 		return nil
@@ -85,14 +103,20 @@ func newWalker(c *Ctx, dsPath string, limVar int, limit float64, tag string) *wa
 		c.Stat("dataset-without-actions")
 		return nil
 	}
-	ref, err := newRef(dsPath, -1, 0)
+	ref, err := newRef(dsPath, -1, 0, extra)
 	if err != nil {
 		return nil
 	}
-	w := &walker{c: c, cm: cm, ref: ref, tag: tag, dsTag: filepath.Base(dsPath)}
+	w := &walker{c: c, cm: cm, ref: ref, tag: tag, dsTag: filepath.Base(dsPath), extra: extra}
 	dl := datasetLine(dsPath)
 	c.Op(dl, "ok")
 	w.ops = append(w.ops, dl)
+	if len(extra) > 0 {
+		// the parameters travel with the ops (replay); the model takes its constants from the extracted data
+		w.dsTag += "|" + cfgLine(extra)
+		c.Op(cfgLine(extra), "ok")
+		w.ops = append(w.ops, cfgLine(extra))
+	}
 	cm.emitLoad(c)
 	c.Stat(fmt.Sprintf("%s dataset n=%d pu=%d limit=%s", tag, cm.n(), len(cm.pus), limName(limVar)))
 	w.checkState("load", cm.snap())
@@ -115,6 +139,7 @@ func near(a, b float64) bool { return math.Abs(a-b) <= 1e-6 }
 
 // checkState evaluates C11 (aggregates) and C01 (valuation = fresh model with that set) on a state.
 func (w *walker) checkState(after string, s *Snap) {
+	w.count++
 	for i := range varNames {
 		sum := 0.0
 		for _, p := range w.cm.pus {
@@ -136,6 +161,23 @@ func (w *walker) checkState(after string, s *Snap) {
 	}
 	// C01: a freshly initialised model to which exactly this set is applied
 	r := w.ref.at(s.flags)
+	if w.quiet {
+		// no drift: both models hold, for every figure, the float nearest to the same grid decimal -- bit for bit
+		for i := range varNames {
+			if r.totals[i] != s.totals[i] {
+				w.fail("C01:history-independence", "catchment:drifted-from-fresh-model:"+varShort[i],
+					fmt.Sprintf("after %s (operation %d of a long walk): %s = %v (bits %s) here but %v (bits %s) in a fresh model with the same active set %s", after, w.count, varNames[i], s.totals[i], floatBits(s.totals[i]), r.totals[i], floatBits(r.totals[i]), s.enc))
+				return
+			}
+			for _, p := range w.cm.pus {
+				if r.units[p][i] != s.units[p][i] {
+					w.fail("C01:history-independence", "catchment:drifted-from-fresh-model-unit:"+varShort[i],
+						fmt.Sprintf("after %s (operation %d of a long walk): %s unit %d = %v here but %v in a fresh model with the same active set %s", after, w.count, varNames[i], p, s.units[p][i], r.units[p][i], s.enc))
+					return
+				}
+			}
+		}
+	}
 	for i := range varNames {
 		if !near(r.totals[i], s.totals[i]) {
 			w.fail("C01:history-independence", "catchment:history-dependent:"+varShort[i],
@@ -184,6 +226,10 @@ func snapsEqualObservables(a, b *Snap, pus []planningunit.Id) string {
 }
 
 func (w *walker) op(line, result string) {
+	if w.quiet {
+		w.c.Stat(w.tag + " operation not sent to the model (direct clauses only)")
+		return
+	}
 	w.ops = append(w.ops, line)
 	w.c.Op(line, result)
 }
@@ -204,7 +250,8 @@ func (w *walker) transaction(i int, decide int, byKey bool) {
 		return
 	}
 	during := cm.snap()
-	valid, q, msg := cm.verdict()
+	vd := cm.verdict()
+	valid := vd.valid
 	ch := cm.changes()
 	var sb strings.Builder
 	sb.WriteString(b2s(valid))
@@ -212,7 +259,8 @@ func (w *walker) transaction(i int, decide int, byKey bool) {
 	if valid || cm.limVar < 0 {
 		sb.WriteString("-")
 	} else {
-		sb.WriteString(gridFmt(q, varPrec[cm.limVar]))
+		// the value quoted IN THE REASON TEXT (not on the grid / not parsable prints as nan or with extra digits)
+		sb.WriteString(gridFmt(vd.quoted, varPrec[cm.limVar]))
 	}
 	sb.WriteString(" C")
 	for k := range varNames {
@@ -237,30 +285,7 @@ func (w *walker) transaction(i int, decide int, byKey bool) {
 	// C10: verdict is exact.  Ground truth: the value the limited variable takes in a freshly initialised
 	// model to which exactly the prospective set is applied; cross-checked with pre + reported change (C02).
 	if cm.limVar >= 0 {
-		prospective := append([]bool(nil), pre.flags...)
-		prospective[i] = !prospective[i]
-		would := w.ref.at(prospective).totals[cm.limVar]
-		byChange := pre.totals[cm.limVar] + ch[cm.limVar]
-		exceeds := would > cm.limit // exact: both are floats nearest to decimals (or the limit is >= 0.01 grid unit off the grid)
-		if valid == exceeds {
-			kind := "rejected-although-within-limit"
-			if valid {
-				kind = "accepted-although-exceeding-limit"
-			}
-			if !valid && would <= pre.totals[cm.limVar] {
-				kind = "rejected-although-lowering"
-			}
-			w.fail("C10:verdict-exact", "catchment:verdict-wrong:"+kind,
-				fmt.Sprintf("propose %d in set %s: %s is %v, would be %v (reported change %v), limit %v, verdict valid=%v (%s)", i, pre.enc, varNames[cm.limVar], pre.totals[cm.limVar], would, ch[cm.limVar], cm.limit, valid, clip(msg, 200)))
-		} else if !valid && !near(q, would) {
-			w.fail("C10:quoted-value-is-prospective", "catchment:quoted-value-wrong",
-				fmt.Sprintf("propose %d in set %s: rejection quotes %v but %s would be %v", i, pre.enc, q, varNames[cm.limVar], would))
-		}
-		if !near(would, byChange) {
-			w.fail("C02:reported-change-is-prospective-change", "catchment:reported-change-wrong:"+varShort[cm.limVar],
-				fmt.Sprintf("propose %d in set %s: reported change %v but %s would go %v -> %v", i, pre.enc, ch[cm.limVar], varNames[cm.limVar], pre.totals[cm.limVar], would))
-		}
-		w.c.Stat(fmt.Sprintf("%s verdict valid=%v exceeds=%v sign=%d", w.tag, valid, exceeds, sign(ch[cm.limVar])))
+		w.judgeVerdict(cm, i, pre.flags, pre.totals[cm.limVar], ch[cm.limVar], vd, w.tag)
 	}
 	moved := false
 	for k := range varNames {
@@ -316,6 +341,53 @@ func (w *walker) transaction(i int, decide int, byKey bool) {
 	}
 }
 
+// judgeVerdict evaluates C10 on one proposal of action i made in the set preFlags by the limited model cm:
+// the verdict against the fresh-model oracle, and the rejection reason TEXT (variable named, value quoted, bound quoted).
+func (w *walker) judgeVerdict(cm *CM, i int, preFlags []bool, preTotal, change float64, vd Verdict, tag string) {
+	prospective := append([]bool(nil), preFlags...)
+	prospective[i] = !prospective[i]
+	preEnc := bitsStr(preFlags)
+	v := cm.limVar
+	would := w.ref.at(prospective).totals[v]
+	byChange := preTotal + change
+	valid := vd.valid
+	exceeds := would > cm.limit // exact: both are floats nearest to decimals (or the limit is >= 0.01 grid unit off the grid)
+	if valid == exceeds {
+		kind := "rejected-although-within-limit"
+		if valid {
+			kind = "accepted-although-exceeding-limit"
+		}
+		if !valid && would <= preTotal {
+			kind = "rejected-although-lowering"
+		}
+		w.fail("C10:verdict-exact", "catchment:verdict-wrong:"+kind,
+			fmt.Sprintf("propose %d in set %s: %s is %v, would be %v (reported change %v), limit %v, verdict valid=%v (%s)", i, preEnc, varNames[v], preTotal, would, change, cm.limit, valid, clip(vd.msg, 200)))
+	} else if !valid {
+		// the reason text: names the limited variable, quotes the prospective value and the configured maximum
+		// (six decimals: half a unit of the last printed place is the tolerance)
+		tol := func(x float64) float64 { return 0.5000001e-6 + 1e-12*math.Abs(x) }
+		switch {
+		case !vd.parsed:
+			w.fail("C10:quoted-value-is-prospective", "catchment:rejection-reason-unreadable",
+				fmt.Sprintf("propose %d in set %s (limit %v on %s): the rejection reason %q is not of the form `<variable> <value> > upper bound <maximum>`", i, preEnc, cm.limit, varNames[v], clip(vd.msg, 200)))
+		case vd.name != varNames[v]:
+			w.fail("C10:quoted-value-is-prospective", "catchment:rejection-reason-names-wrong-variable",
+				fmt.Sprintf("propose %d in set %s: the limit is on %s but the rejection reason is %q", i, preEnc, varNames[v], clip(vd.msg, 200)))
+		case !(math.Abs(vd.quoted-would) <= tol(would)):
+			w.fail("C10:quoted-value-is-prospective", "catchment:quoted-value-wrong",
+				fmt.Sprintf("propose %d in set %s: the rejection reason %q quotes %v but %s would be %v (it is %v now)", i, preEnc, clip(vd.msg, 200), vd.quoted, varNames[v], would, preTotal))
+		case !(math.Abs(vd.maximum-cm.limit) <= tol(cm.limit)):
+			w.fail("C10:quoted-value-is-prospective", "catchment:quoted-bound-wrong",
+				fmt.Sprintf("propose %d in set %s: the rejection reason %q quotes the bound %v but the configured maximum is %v", i, preEnc, clip(vd.msg, 200), vd.maximum, cm.limit))
+		}
+	}
+	if !near(would, byChange) {
+		w.fail("C02:reported-change-is-prospective-change", "catchment:reported-change-wrong:"+varShort[v],
+			fmt.Sprintf("propose %d in set %s: reported change %v but %s would go %v -> %v", i, preEnc, change, varNames[v], preTotal, would))
+	}
+	w.c.Stat(fmt.Sprintf("%s verdict valid=%v exceeds=%v sign=%d", tag, valid, exceeds, sign(change)))
+}
+
 func sign(f float64) int {
 	switch {
 	case f > 0:
@@ -354,6 +426,21 @@ func (w *walker) setAll(bits []bool, how int) {
 			for i, b := range bits {
 				w.cm.m.SetManagementAction(i, b)
 			}
+		case 2: // the REAL ModelCompressor, as the Saver / the engine load a solution: Compress a model holding the set,
+			// take the text encoding, Decode it into a second compressed state, Decompress that into the model
+			w.ref.cm.m.Initialise(0)
+			for i, b := range bits {
+				if b {
+					w.ref.cm.m.SetManagementAction(i, true)
+				}
+			}
+			comp := marchive.ModelCompressor{}
+			text := comp.Compress(w.ref.cm.m).Actions.Encoding()
+			target := comp.Compress(w.cm.m)
+			if err := target.Actions.Decode(text); err != nil {
+				panic("Decode(" + text + "): " + err.Error())
+			}
+			comp.Decompress(target, w.cm.m)
 		default: // SynchroniseTo a reference model holding that set
 			w.ref.cm.m.Initialise(0)
 			for i, b := range bits {
@@ -466,7 +553,7 @@ func (w *walker) randomWalk(r *Rng, steps int) {
 			for i := range bits {
 				bits[i] = r.Chance(p)
 			}
-			w.setAll(bits, r.Intn(2))
+			w.setAll(bits, r.Intn(3))
 		case x < 0.95:
 			w.reinit([]string{"asis", "random", "unchanged"}[r.Intn(3)])
 		default:
@@ -485,6 +572,38 @@ func (w *walker) randomWalk(r *Rng, steps int) {
 	}
 }
 
+// shadowStep repeats, on every shadow model, the proposal of action i that the walk has just made on cm, judges the
+// verdict and the reason text (C10), and completes it the same way (accept / revert), so that all models stay in step.
+func (w *walker) shadowStep(i int, accept bool) {
+	for _, sh := range w.shadows {
+		pre := sh.flags()
+		preTotal := sh.total(sh.limVar)
+		var vd Verdict
+		var change float64
+		if p := protect(func() {
+			sh.tryRandom(i)
+			vd = sh.verdict()
+			change = sh.m.DecisionVariableChange(varNames[sh.limVar])
+			w.judgeVerdict(sh, i, pre, preTotal, change, vd, "exhaustive-grid")
+			if accept {
+				sh.m.AcceptChange()
+			} else {
+				sh.m.RevertChange()
+			}
+		}); p != "" {
+			w.fail("no-panic", "catchment:propose-panic", fmt.Sprintf("limit %v on %s: %s", sh.limit, varNames[sh.limVar], p))
+			continue
+		}
+		// the shadow moved exactly as the oracle says (C01/C02 on the shadow, cheaply: the limited total only)
+		post := sh.flags()
+		if got, want := sh.total(sh.limVar), w.ref.at(post).totals[sh.limVar]; !near(got, want) {
+			w.fail("C01:history-independence", "catchment:history-dependent:"+varShort[sh.limVar],
+				fmt.Sprintf("after propose %d; accept=%v in set %s under limit %v: %s = %v here but %v in a fresh model with the same active set", i, accept, bitsStr(pre), sh.limit, varNames[sh.limVar], got, want))
+		}
+		w.c.Nontrivial(fmt.Sprintf("%s|%s|%d|%s|%d", w.dsTag, limName(sh.limVar), sh.limVarBucket(), bitsStr(pre), i))
+	}
+}
+
 // grayWalk visits all 2^free action sets below a fixed prefix in Gray-code order; in every state every
 // single step out of it is proposed (and reverted), the Gray step is proposed and accepted.
 func (w *walker) grayWalk(prefixBits []bool) {
@@ -493,11 +612,17 @@ func (w *walker) grayWalk(prefixBits []bool) {
 	start := make([]bool, n)
 	copy(start, prefixBits)
 	w.setAll(start, 0)
+	for _, sh := range w.shadows {
+		for i, b := range start {
+			sh.m.SetManagementAction(i, b)
+		}
+	}
 	total := 1 << uint(free)
 	for g := 1; g <= total; g++ {
 		// all single steps out of the current state, reverted
 		for i := 0; i < n; i++ {
 			w.transaction(i, 0, false)
+			w.shadowStep(i, false)
 		}
 		if g == total {
 			break
@@ -508,15 +633,18 @@ func (w *walker) grayWalk(prefixBits []bool) {
 			bit++
 		}
 		w.transaction(len(prefixBits)+bit, 1, false)
+		w.shadowStep(len(prefixBits)+bit, true)
 	}
 }
 
-// attainable returns sorted distinct totals of variable v over a sample of action sets.
-func attainable(ref *Ref, r *Rng, v int, samples int) []float64 {
+// attainable returns sorted distinct totals of variable v over a sample of action sets (all of which start with
+// `prefix`: the exhaustive walk's shards fix the first actions).
+func attainable(ref *Ref, r *Rng, v int, samples int, prefix []bool) []float64 {
 	n := ref.cm.n()
 	seen := map[float64]bool{}
 	var out []float64
 	add := func(bits []bool) {
+		copy(bits, prefix)
 		x := ref.at(bits).totals[v]
 		if !seen[x] {
 			seen[x] = true
@@ -558,18 +686,30 @@ func sortFloats(xs []float64) {
 // Off-grid limits keep at least 0.01 grid unit away from every grid point; the model identifies a limit within
 // 2^-50 (relative) of a grid point with that grid point (the float nearest to a decimal IS that decimal).
 func limitsFor(ref *Ref, r *Rng, v int, k int) []float64 {
-	at := attainable(ref, r, v, 60)
+	lims, _ := limitsForKinds(ref, r, v, k, nil)
+	return lims
+}
+
+// limitsForKinds is limitsFor that also says which kind each limit is; the attainable values are those of the sets
+// that start with `prefix`.
+func limitsForKinds(ref *Ref, r *Rng, v int, k int, prefix []bool) ([]float64, []string) {
+	at := attainable(ref, r, v, 60, prefix)
 	u := math.Pow(10, -float64(varPrec[v]))
 	var lims []float64
+	var which []string
 	kinds := []string{"mid", "exact", "below", "above", "exact", "mid", "below", "zero"}
 	start := r.Intn(len(kinds))
 	for j := 0; j < k; j++ {
 		a := at[r.Intn(len(at))]
 		off := []float64{0.3, 0.45, 0.01}[r.Intn(3)] * u
-		switch kind := kinds[(start+j)%len(kinds)]; {
+		kind := kinds[(start+j)%len(kinds)]
+		which = append(which, kind)
+		switch {
 		case kind == "exact":
 			if r.Chance(0.3) { // the two starting extremes: nothing active / everything active
-				a = []float64{ref.at(make([]bool, ref.cm.n())).totals[v], at[len(at)-1], at[0]}[r.Intn(3)]
+				none := make([]bool, ref.cm.n())
+				copy(none, prefix)
+				a = []float64{ref.at(none).totals[v], at[len(at)-1], at[0]}[r.Intn(3)]
 			}
 			lims = append(lims, a)
 		case kind == "below":
@@ -593,7 +733,7 @@ func limitsFor(ref *Ref, r *Rng, v int, k int) []float64 {
 			lims[i] = 0 // Maximum* keys must be non-negative
 		}
 	}
-	return lims
+	return lims, which
 }
 
 // startLimitsFor: limits that satisfy C03's premise — attainable at the optimiser's starting extreme (everything active
@@ -621,6 +761,13 @@ func startLimitsFor(ref *Ref, r *Rng, v int, k int) []float64 {
 	return out
 }
 
+// limSpec is one point of the exhaustive walk's grid of limits.
+type limSpec struct {
+	v     int
+	limit float64
+	kind  string
+}
+
 func suiteCatchmentWalk(c *Ctx) {
 	if c.Replay != "" {
 		replayCatchment(c)
@@ -636,6 +783,9 @@ func suiteCatchmentWalk(c *Ctx) {
 		gray   []bool
 		probe  []bool // boundary probe: load this set, then propose `probeAt` (the limit is the value that step leads to)
 		probeAt int
+		grid   []limSpec // exhaustive walk: the further (variable, limit) pairs every proposal is judged under (shadow models)
+		extra  parameters.Map // model parameters other than the defaults
+		quiet  bool           // long no-drift walk: direct clauses only, bit-exact comparison with the fresh model
 	}
 	var jobs []job
 	walkSteps := c.N(400, 4000)
@@ -652,6 +802,39 @@ func suiteCatchmentWalk(c *Ctx) {
 			for _, lim := range limitsFor(ref, r, v, c.N(3, 10)) {
 				jobs = append(jobs, job{ds: ds, limVar: v, limit: lim, tag: "shipped-limited", steps: walkSteps})
 			}
+		}
+	}
+	// the same walks under model parameters other than the defaults (they change every action constant the model
+	// derives from the tables: delivery ratios, vegetation target, gully reduction target, densities, years of erosion)
+	for _, ds := range shippedDatasets() {
+		for rep := 0; rep < c.N(2, 8); rep++ {
+			var extra parameters.Map
+			for len(extra) == 0 {
+				extra = genParams(r)
+			}
+			jobs = append(jobs, job{ds: ds, limVar: -1, tag: "shipped-params", steps: walkSteps / 2, extra: extra})
+			if ref, err := newRef(ds, -1, 0, extra); err == nil && ref.cm.n() > 0 {
+				v := r.Intn(6)
+				for _, lim := range limitsFor(ref, r, v, 1) {
+					jobs = append(jobs, job{ds: ds, limVar: v, limit: lim, tag: "shipped-params-limited", steps: walkSteps / 2, extra: extra})
+				}
+			}
+		}
+	}
+	if c.Thorough() {
+		// long histories (C01 / C11: no drift): walks of 200 000 operations -- the length of a real annealing run -- on the
+		// shipped datasets, not sent to the Lean model (it follows a few hundred lines a second); after EVERY operation every
+		// total and every planning-unit value must equal the fresh model's BIT FOR BIT, besides the usual direct clauses
+		shipped := shippedDatasets()
+		for k := 0; k < 4; k++ {
+			j := job{ds: shipped[k%2], limVar: -1, tag: "long-walk", steps: 200000, quiet: true}
+			if k >= 2 {
+				if ref, err := newRef(j.ds, -1, 0); err == nil {
+					j.limVar = []int{4, 0}[k-2]
+					j.limit = limitsFor(ref, r, j.limVar, 1)[0]
+				}
+			}
+			jobs = append(jobs, j)
 		}
 	}
 	// boundary probes: the limit is EXACTLY the value a chosen step out of a chosen set leads to (or that value
@@ -689,13 +872,62 @@ func suiteCatchmentWalk(c *Ctx) {
 		}
 	}
 	if c.Thorough() {
-		// exhaustive: every active set of the shipped n=13 dataset, every single step out of it, sharded by a 3-bit prefix
+		// exhaustive: every active set of the shipped n=13 dataset, every single step out of it, sharded by a 3-bit prefix.
+		// States x actions x a GRID OF LIMITS: each shard walks under a limit on one variable (compared with the Lean model
+		// line by line) and under 17 more (variable, limit) pairs on shadow models (direct clauses): per variable three of
+		// the kinds mid / exact (an attainable value, incl. the starting extremes) / just below / just above / zero.
 		ds := shippedDatasets()[0]
-		for pfx := 0; pfx < 8; pfx++ {
-			jobs = append(jobs, job{ds: ds, limVar: -1, tag: "exhaustive", gray: []bool{pfx&1 != 0, pfx&2 != 0, pfx&4 != 0}})
+		if ref, err := newRef(ds, -1, 0); err == nil && ref.cm.n() >= 3 {
+			for pfx := 0; pfx < 8; pfx++ {
+				prefix := []bool{pfx&1 != 0, pfx&2 != 0, pfx&4 != 0}
+				// the model-compared walk: variable pfx mod 6, of the kind below (every other shard an exact-attainable limit)
+				pv := pfx % 6
+				wanted := []string{"exact", "mid", "exact", "below", "exact", "above", "exact", "mid"}[pfx]
+				var prim limSpec
+				var grid []limSpec
+				for v := 0; v < 6; v++ {
+					lims, kinds := limitsForKinds(ref, r, v, 8, prefix)
+					off := r.Intn(8)
+					taken := -1
+					if v == pv {
+						for j := range kinds {
+							if kinds[j] == wanted {
+								taken = j
+							}
+						}
+						prim = limSpec{v: v, limit: lims[taken], kind: kinds[taken]}
+					}
+					for k := 0; k < 3; k++ {
+						j := (off + 3*k) % 8 // 3 is coprime to 8: three distinct entries, and consecutive kinds differ
+						if j != taken {
+							grid = append(grid, limSpec{v: v, limit: lims[j], kind: kinds[j]})
+						}
+					}
+				}
+				jobs = append(jobs, job{ds: ds, limVar: prim.v, limit: prim.limit, tag: "exhaustive", gray: prefix, grid: grid})
+			}
+		}
+		// the other shipped dataset (n=15): all 2^15 active sets x every single step, direct clauses only (not sent to the
+		// Lean model: a million lines), every figure compared with the fresh model bit for bit; each shard under a limit
+		// on one variable plus five shadow limits
+		ds15 := shippedDatasets()[1]
+		if ref, err := newRef(ds15, -1, 0); err == nil && ref.cm.n() >= 3 {
+			for pfx := 0; pfx < 8; pfx++ {
+				prefix := []bool{pfx&1 != 0, pfx&2 != 0, pfx&4 != 0}
+				var grid []limSpec
+				for v := 0; v < 6; v++ {
+					lims, kinds := limitsForKinds(ref, r, v, 8, prefix)
+					j := r.Intn(8)
+					grid = append(grid, limSpec{v: v, limit: lims[j], kind: kinds[j]})
+				}
+				prim := grid[pfx%6]
+				grid = append(grid[:pfx%6:pfx%6], grid[pfx%6+1:]...)
+				jobs = append(jobs, job{ds: ds15, limVar: prim.v, limit: prim.limit, tag: "exhaustive-n15", gray: prefix, grid: grid, quiet: true})
+			}
 		}
 	}
 	gen := c.N(6, 120)
+	genExactCostTies = true // this suite's driver answers BOUNDARY where a cost is an exact tie of RoundFloat(cost, 2)
 	for g := 0; g < gen; g++ {
 		ds := genDataset(r.Fork(), filepath.Join(c.Out, "gen"), fmt.Sprintf("G%d_%d_", c.Shard, g))
 		jobs = append(jobs, job{ds: ds, limVar: -1, tag: "generated", steps: walkSteps / 2})
@@ -720,10 +952,11 @@ func suiteCatchmentWalk(c *Ctx) {
 		if ji%c.Shards != c.Shard {
 			continue
 		}
-		w := newWalker(c, j.ds, j.limVar, j.limit, j.tag)
+		w := newWalker(c, j.ds, j.limVar, j.limit, j.tag, j.extra)
 		if w == nil {
 			continue
 		}
+		w.quiet = j.quiet
 		if j.probe != nil {
 			w.setAll(j.probe, 0)
 			w.transaction(j.probeAt, 2, false) // towards the limit's value
@@ -735,6 +968,16 @@ func suiteCatchmentWalk(c *Ctx) {
 				w.transaction(pr.Intn(w.cm.n()), 2, pr.Chance(0.3))
 			}
 		} else if j.gray != nil {
+			c.Stat(fmt.Sprintf("exhaustive shard: model-compared limit on %s; %d shadow limits", limName(j.limVar), len(j.grid)))
+			for _, g := range j.grid {
+				sh, err := loadCM(j.ds, g.v, g.limit, j.extra)
+				if err != nil {
+					c.Fail("harness:shipped-dataset-loads", "catchment:shipped-dataset-rejected", fmt.Sprintf("limit %v on %s: %v", g.limit, varNames[g.v], err), nil)
+					continue
+				}
+				w.shadows = append(w.shadows, sh)
+				c.Stat(fmt.Sprintf("exhaustive shard: shadow limit on %s kind=%s", limName(g.v), g.kind))
+			}
 			w.grayWalk(j.gray)
 		} else {
 			w.randomWalk(r.Fork(), j.steps)
@@ -748,9 +991,13 @@ func replayCatchment(c *Ctx) {
 	limVar, limit := -1, 0.0
 	var dsLine string
 	lines := readLines(c.Replay)
-	// limits are declared after the dataset line and before endload: scan ahead
+	// limits (and non-default model parameters) are declared after the dataset line and before endload: scan ahead
+	var extra parameters.Map
 	for _, l := range lines {
 		f := strings.Fields(l)
+		if len(f) > 1 && f[0] == "cfg" {
+			extra = parseCfgLine(l)
+		}
 		if len(f) == 3 && f[0] == "max" {
 			for i, s := range varShort {
 				if s == f[1] {
@@ -770,8 +1017,8 @@ func replayCatchment(c *Ctx) {
 		case "dataset":
 			dsLine = l
 			path := materialiseDataset(dsLine, filepath.Join(c.Out, "replay-ds"))
-			w = newWalker(c, path, limVar, limit, "replay")
-		case "load", "pu", "act", "max", "endload":
+			w = newWalker(c, path, limVar, limit, "replay", extra)
+		case "load", "pu", "act", "max", "endload", "hyp", "cfg":
 			// regenerated by newWalker from the dataset
 		default:
 			if w == nil {
